@@ -191,6 +191,7 @@ fn main() {
             "handler" => run_handler(sc),
             "socket" => sock::run_socket(sc),
             "sched" => sched::run_sched(sc),
+            "server" => sock::run_server(sc),
             k => json!({"error": format!("unknown scenario kind {}", k)}),
         };
         outs.push(out);
